@@ -183,7 +183,9 @@ let validate (c : case) : string =
         let i = index_of k in
         if i >= 0 then begin
           let s1 = sys_skip fuel !sysr (nat_of_int i) in
-          match sys_event s1 (nat_of_int i) e (crashed && j = nev - 1) with
+          (* in a killed run the last event of a piece may be a write cut short *)
+          let last_of_piece = not (List.exists (fun (seq', k', _) -> k' = k && seq' > seq) all_ev) in
+          match sys_event s1 (nat_of_int i) e (crashed && last_of_piece) with
           | Some s2 -> sysr := s2
           | None -> bad "system replay: event #%d (%s) of piece %s is not a step of the transition system from the state reached (program/event mismatch, operation refused by the model file system, or a read that differs from the shared file system)" seq (show_event e) k
         end) all_ev;
